@@ -152,3 +152,80 @@ def tilt(ctx, case):
     ctx.ensure("v2.v3==b*c*cos(alpha)", dot(v2, v3) == B * C * ca)
     ctx.ensure("v3.v1==c*a*cos(beta)", dot(v3, v1) == C * A * cb)
     ctx.ensure("v1.v2==a*b*cos(gamma)", dot(v1, v2) == A * B * cg)
+
+
+# ---------------------------------------------------------------------------------------------
+# cell presence through Trajectory operations: join with lists (the per-element guard), and the unitcell_vectors setter
+from . import c03 as _c03  # noqa: E402
+
+contract("C17", "mdtraj/core/trajectory.py", "Trajectory.join(list)", cases=_c03._LIST_CASES, replay="cell")(_c03._join_mixed_list)
+
+
+class BoxArr:
+    """a (1, 3, 3) array of symbolic reals: one frame's box vectors in ANY orientation"""
+
+    is_ndarray = True
+
+    def __init__(self, e):
+        self.e = e  # 9 SReal, row-major
+
+    def sym_len(self, interp):
+        return 1
+
+    def sym_getattr(self, interp, name):
+        if name == "shape":
+            return (1, 3, 3)
+        if name == "ndim":
+            return 3
+        raise core.Unsupported("BoxArr." + name)
+
+    def sym_getitem(self, interp, k):
+        if isinstance(k, tuple) and len(k) == 3 and isinstance(k[1], int):
+            from mdvc.tarr import TArr
+            return TArr(("boxrow", k[1]), shape=(1, 3))
+        raise core.Unsupported("BoxArr index")
+
+
+class _NumpyBox(npreal.NumpyR):
+    def np_abs(self, interp, x):
+        if isinstance(x, BoxArr):
+            return RVec([abs(v) for v in x.e])
+        return super().np_abs(interp, x)
+
+    def np_vstack(self, interp, xs):
+        from mdvc.tarr import TArr
+        return TArr(("vstack",) + tuple(getattr(x, "nf", lambda: x)() for x in xs), shape=(len(list(xs)), 1))
+
+
+@contract("C17", "mdtraj/core/trajectory.py", "Trajectory.unitcell_vectors(setter)", cases=["vectors", "None"], replay="cell",
+          covers=["cell-set", "cell-cleared"])
+def vectors_setter(ctx, case):
+    """all-zero vectors (or None) mean 'no cell'; ANY other description -- whatever its orientation and signs -- sets both
+    lengths and angles"""
+    from . import trajmodel as TM
+    from mdvc.npreal import RMask
+    from mdvc.tarr import TArr
+    log = []
+    TM.install_trajectory_env(ctx, log, ctx.interp.repo)
+    ctx.interp.import_models["numpy"] = _NumpyBox()
+    t, mod = TM.make_traj(ctx, 1, 5, cell=True)
+    if case == "None":
+        ctx.interp.setattr(t, "unitcell_vectors", None)
+        ctx.cover("cell-cleared")
+        ctx.cover("cell-set")
+        ctx.ensure("None-clears-both-fields", t.fields["_unitcell_lengths"] is None and t.fields["_unitcell_angles"] is None)
+        return
+    e = [ctx.real(f"m{i}{j}") for i in range(3) for j in range(3)]
+    # RVec compare with a float gives an elementwise mask; `BoxArr < 1e-15` (without abs) must behave the same way
+    BoxArr.sym_compare = lambda self, interp, op, other, reflected: RVec(self.e).sym_compare(interp, op, other, reflected)
+    ctx.interp.setattr(t, "unitcell_vectors", BoxArr(e))
+    L, A = t.fields["_unitcell_lengths"], t.fields["_unitcell_angles"]
+    tiny = z3.RealVal("1/1000000000000000")
+    allzero = z3.And(*[z3.And(rterm(x) < tiny, -rterm(x) < tiny) for x in e])
+    if L is None and A is None:
+        ctx.cover("cell-cleared")
+        ctx.ensure("cell-cleared-only-for-an-all-zero-box", allzero)
+    else:
+        ctx.cover("cell-set")
+        ctx.ensure("lengths-and-angles-set-together", L is not None and A is not None)
+        ctx.ensure("nonzero-box-sets-the-cell", z3.Not(allzero))
